@@ -1,5 +1,7 @@
 import DVP.Lemmas.Controller
 import DVP.Lemmas.Arctan
+import DVP.Properties.C03
+import DV.Model.Run
 /-!
 # C05 — adaptive integration keeps the global error proportional to the tolerances
 
@@ -55,6 +57,43 @@ theorem accepted_call_honours_contract (ai implicit : Bool) (c08 h : ℚ) (hc : 
 i.e. `(1/‖err/(atol + rtol·scale)‖)^(1/order) > 1`: the scaled error estimate is below one -/
 theorem accepted_step_estimate_within_tolerance_partial (c : ℝ) (hacc : (0.9 : ℝ) ^ 2 ≤ corr 0.8 c) : 1 < c :=
   accepted_implies_raw_correction_gt_one c hacc
+
+/-- the accept/retry loop as an integrator of the time-grid machine (`DV.Run.ctrlOrc`) honours the integrator contract of C03
+whenever its attempts are what `update_timestep` delivers (`AllOK`: the proposal keeps the sign of the step, a rejection shrinks) -/
+theorem controller_is_an_admissible_integrator (ai implicit : Bool) (c08 : ℚ) (hc : 0 < c08) (atts : Nat → ℚ → Attempts ℚ)
+    (hatt : ∀ k t, AllOK (atts k t)) (retries : Nat) : DVP.Loop.OracleOK (DV.Run.ctrlOrc ai implicit c08 atts retries) := by
+  intro k t h hh
+  unfold DV.Run.ctrlOrc
+  cases hres : call ai implicit c08 h (atts k t) retries with
+  | ok newDt dT tr => exact call_contract ai implicit c08 h hc hh (atts k t) (hatt k t) retries newDt dT tr hres
+  | raise tr => trivial
+
+/-- **A whole adaptive run**: the time-grid machine of C03 driven by the accept/retry loop of the integrator (every step goes
+through `Controller.call`: first attempt, rejections retried with strictly smaller steps, an error after `retries` of them).  For
+every behaviour of the error estimates (the attempts), every span, direction and `dt ≠ 0`: the samples the call adds start from
+the current time, move strictly monotonically toward the target and never pass it - every one of them an ACCEPTED step - and a
+call that returns through the loop guard ends within `max eps tolEps` of the target; a call in which the tolerances cannot be met
+raises (oracle `.raise`, `fault_leaves_prefix` of C12 applies) instead of recording a step. -/
+theorem adaptive_run_covers_span (cfg : DV.Loop.Cfg ℚ) (heps : 0 < cfg.eps) (htol : 0 < cfg.tolEps) (hhalf : 0 < cfg.half)
+    (s : DV.Loop.Sys ℚ) (target : ℚ) (ai implicit : Bool) (c08 : ℚ) (hc : 0 < c08) (atts : Nat → ℚ → Attempts ℚ)
+    (hatt : ∀ k t, AllOK (atts k t)) (retries fuel : Nat) (hdt : s.dt ≠ 0) :
+    ∃ news : List ℚ,
+      (DV.Loop.integrate cfg s target (DV.Run.ctrlOrc ai implicit c08 atts retries) fuel).sys.ts = news.reverse ++ s.ts ∧
+      DVP.Loop.Steps target s.tcur news ∧
+      ((DV.Loop.integrate cfg s target (DV.Run.ctrlOrc ai implicit c08 atts retries) fuel).guardExit = true →
+        |target - (DV.Loop.integrate cfg s target (DV.Run.ctrlOrc ai implicit c08 atts retries) fuel).sys.tcur| < max cfg.eps cfg.tolEps) :=
+  DVP.C03.integrate_covers_span cfg heps htol hhalf s target _ fuel hdt
+    (controller_is_an_admissible_integrator ai implicit c08 hc atts hatt retries)
+    (fun k t h v hv => by
+      unfold DV.Run.ctrlOrc at hv
+      split at hv <;> simp at hv)
+    (Or.inl (fun k t h => by unfold DV.Run.ctrlOrc; split <;> rfl))
+
+/-- non-vacuity of `adaptive_run_covers_span`: the second step is rejected once (retried with half the step), every accepted step
+proposes 1.1 times itself; the run lands on the target -/
+example : (DV.Loop.integrate (α := ℚ) { eps := 1/2^50, tolEps := 1/2^47, half := 1/2 } (DV.Loop.construct 0 1 (1/4)) 1
+    (DV.Run.ctrlOrc true false (4/5) (fun k _ => fun j hi => if k == 1 && j == 0 then { ts := hi / 2, redo := true } else { ts := hi * (11/10), redo := false }) 64) 20).sys.ts.reverse
+      = [0, 1/4, 31/80, 431/800, 5641/8000, 71051/80000, 1] := by decide +kernel
 
 /-- non-vacuity: three rejections then an acceptance, backward step -/
 example : triedOf (call (α := ℚ) true false (4/5) (-1)
